@@ -2648,7 +2648,10 @@ class CondTr(Generic[X, R], Trace[X, R]):
         return (self.check, *self.trs[0].get_args())
 
     def get_retval(self) -> R:
-        return jnp.where(self.check, *map(get_retval, self.trs))
+        # Select leaf-wise: branch return values may be pytrees (tuples, dicts).
+        return jtu.tree_map(
+            lambda r, r_: jnp.where(self.check, r, r_), *map(get_retval, self.trs)
+        )
 
     def get_score(self) -> Score:
         return jnp.where(self.check, *map(get_score, self.trs))
@@ -2741,7 +2744,7 @@ class Cond(Generic[X, R], GFI[X, R]):
         logp, r = self.callee.assess(x, *rest_args, **kwargs)
         logp_, r_ = self.callee_.assess(x, *rest_args, **kwargs)
         total_density = jnp.where(check, logp, logp_)
-        retval = jnp.where(check, r, r_)
+        retval = jtu.tree_map(lambda v, v_: jnp.where(check, v, v_), r, r_)
         return total_density, retval
 
     def generate(
